@@ -22,7 +22,7 @@ ENV.pop("GOTOOLCHAIN", None)
 
 
 def sh(cmd, cwd=None, env=None, timeout=7200):
-    p = subprocess.run(cmd, cwd=cwd, capture_output=True, text=True, timeout=timeout, env=env or ENV)
+    p = subprocess.run(cmd, cwd=cwd, capture_output=True, text=True, errors="replace", timeout=timeout, env=env or ENV)
     return p.returncode, p.stdout + p.stderr
 
 
